@@ -366,6 +366,13 @@ class CallMixin(object):
         if k == "closure":
             fi, defframe = self.closures[fn[1]]
             if defframe is not None and defframe.fid not in state.envs:
+                # the same definition executed on another path: use the frame
+                # that belongs to this state
+                for fr in reversed(getattr(self, "closure_frames", {}).get(fn[1], [])):
+                    if fr.fid in state.envs:
+                        defframe = fr
+                        break
+            if defframe is not None and defframe.fid not in state.envs:
                 alt = getattr(self, "cell_frames", {}).get(defframe.func.qualname)
                 if alt is not None and alt.fid in state.envs:
                     defframe = alt
@@ -584,9 +591,16 @@ class CallMixin(object):
                     env[p] = self.fold(defaults[di], self.repo.modules[fi.module])
                 else:
                     env[p] = ("unknown", "missing-arg:" + p)
-        for ka in fi.node.args.kwonlyargs:
+        for ki, ka in enumerate(fi.node.args.kwonlyargs):
             if ka.arg in kwargs:
                 env[ka.arg] = kwargs.pop(ka.arg)
+            else:
+                kd = fi.node.args.kw_defaults[ki] if ki < len(fi.node.args.kw_defaults) \
+                    else None
+                if kd is not None:
+                    env[ka.arg] = self.fold(kd, self.repo.modules[fi.module])
+                else:
+                    env[ka.arg] = ("unknown", "missing-arg:" + ka.arg)
         if fi.kwarg:
             env[fi.kwarg] = ("kwdict", tuple(sorted(kwargs.items())))
         elif kwargs:
